@@ -136,8 +136,9 @@ pub struct Profile {
 pub const PLAIN: Profile = Profile { name: "plain", allow_empty: true, allow_key_update: false, allow_long: false, codepages: true, non_ascii: true, try_invalid: false };
 
 pub const TABLE_NAMES: [&str; 8] = ["A", "Tbl", "T1", "Tbl.x", "_u", "Feature", "Long_Table.Name_0123456789", "z9"];
-/// (`Tbl` + `x.k` and `Tbl.x` + `k` spell the same dotted path.)
-pub const COLUMN_NAMES: [&str; 8] = ["k", "a", "x.k", "Name", "Value_1", "c.d", "_e", "Zed"];
+/// (`Tbl` + `x.k` and `Tbl.x` + `k` spell the same dotted path; `k` / `K` and
+/// `a` / `A` differ only in case: names are case-sensitive.)
+pub const COLUMN_NAMES: [&str; 8] = ["k", "a", "x.k", "Name", "K", "c.d", "_e", "A"];
 pub const STREAM_NAMES: [&str; 8] = ["Binary.a", "Icon.App.ico", "s1", "data_2", "Z", "Cab.1", "A", "T1"];
 pub const ASCII_STRINGS: [&str; 14] = ["", "a", "b", "ab", "A", "Name", "x y", "Value_1", "A", "0", "-1", "The quick brown fox", "k", "T1"];
 pub const INT_BOUNDS: [i32; 19] = [0, 1, -1, 2, 31, 32, 127, 128, 255, 256, 32766, 32767, -32767, -32768, 32768, 65535, 65536, i32::MAX, -i32::MAX];
